@@ -154,7 +154,8 @@ Definition codegen_check (p0 : program) (top : realfun) (funs : list realfun) (g
 (* ---------------------------------------------------------------- expectations from the real run *)
 Inductive expect :=
 | XOk (globals : list (string * string))        (* name, rendered value; only bound globals *)
-| XErr (p : pos) (caller : pos).                (* innermost Starlark frame position, and its caller's *)
+| XErr (p : pos) (caller : pos)                 (* innermost Starlark frame position, and its caller's *)
+| XTimeout.                                     (* the real run exceeded its step limit *)
 
 Fixpoint pairs_eqb (a b : list (string * string)) : bool :=
   match a, b with
@@ -199,8 +200,10 @@ Definition compare_obs (fn : nat -> string) (names : list string) (o : observati
   | OutOfFuel => "oof"
   | Unsupported t => ("unsup:" ++ t)%string
   | Success g =>
+      match x with XTimeout => "mismatch:real-exceeds-step-limit" | _ =>
       if negb (events_eqb (ob_trace o) tr) then "mismatch:trace" else
       match x with
+      | XTimeout => "mismatch:real-exceeds-step-limit"
       | XErr _ _ => "mismatch:model-succeeds"
       | XOk gl =>
           let w := {| heap := ob_heap o; cells := ob_cells o; trace := [] |} in
@@ -208,13 +211,15 @@ Definition compare_obs (fn : nat -> string) (names : list string) (o : observati
           | None => "unsup:render-globals"
           | Some r => if pairs_eqb (sort_pairs r) gl then "ok" else "mismatch:globals"
           end
-      end
+      end end
   | Failure ps incall =>
+      match x with XTimeout => "mismatch:real-exceeds-step-limit" | _ =>
       if negb (events_eqb (ob_trace o) tr) then "mismatch:trace" else
       match x with
+      | XTimeout => "mismatch:real-exceeds-step-limit"
       | XOk _ => "mismatch:model-fails"
       | XErr pr pc => if pos_eqb ps (if incall then pc else pr) then "ok" else "mismatch:position"
-      end
+      end end
   end.
 
 Definition ref_fuel : nat := 4000.
@@ -230,8 +235,15 @@ Definition steps_of (r : option (vresult * nat)) : nat :=
 
 Definition vm_check (cp : cprog) (fn : nat -> string) (globals : list string) (tr : list event) (x : expect) (steps : nat) : string :=
   let r := run cp fn vm_fuel (init_state cp (length globals)) in
+  match x with
+  | XTimeout => match r with
+                | None => "ok"
+                | Some (_, n) => if Nat.leb steps n then "ok" else "mismatch:real-exceeds-step-limit"
+                end
+  | _ =>
   let c := compare_obs fn globals (observe_vm r) tr x in
-  if String.eqb c "ok" then (if Nat.eqb (steps_of r) steps then "ok" else "mismatch:steps") else c.
+  if String.eqb c "ok" then (if Nat.eqb (steps_of r) steps then "ok" else "mismatch:steps") else c
+  end.
 
 (* the model compiler + model machine against the real pipeline (end to end) *)
 Definition compiled_check (p : program) (tr : list event) (x : expect) : string :=
